@@ -5,12 +5,12 @@ package main
 // rebuild the reference database ("fold of the log prefix").
 
 import (
-	"verif/harness/internal/kvsafe"
 	"fmt"
 	"io"
 	"os"
 	"path/filepath"
 	"time"
+	"verif/harness/internal/kvsafe"
 
 	"github.com/cockroachdb/pebble/vfs"
 	pb "google.golang.org/protobuf/proto"
